@@ -32,12 +32,12 @@ Fixpoint sel (flt : N -> option bool) (gd thr : N) (x : sctx) (d : N) (k : call)
            | Some false => []
            | Some true =>
                let ks := flat_map (sel flt gd thr {| dead := false; scope := true; budget := gd - 1 |} (d + 1)) kids in
-               if (thr <? t1 - t0) || negb (is_nil ks) then E_ a t0 d :: ks ++ [X_ a t1 d] else []
+               if (thr <=? t1 - t0) || negb (is_nil ks) then E_ a t0 d :: ks ++ [X_ a t1 d] else []
            | None =>
                if scope x && (0 <? budget x)
                then let ks := flat_map (sel flt gd thr {| dead := false; scope := scope x; budget := budget x - 1 |}
                                                 (d + 1)) kids in
-                    if (thr <? t1 - t0) || negb (is_nil ks) then E_ a t0 d :: ks ++ [X_ a t1 d] else []
+                    if (thr <=? t1 - t0) || negb (is_nil ks) then E_ a t0 d :: ks ++ [X_ a t1 d] else []
                else flat_map (sel flt gd thr x d) kids
            end
   end.
